@@ -63,7 +63,7 @@ def max_valid_dim(cls):
     Derived from the documented validity of each model (``check_dim``); the
     table itself is cross-checked against the library in C02.
     """
-    return {"Linear": 1, "Circular": 2, "Spherical": 3, "Cubic": 3}.get(cls, 99)
+    return {"Linear": 1, "Circular": 2, "Spherical": 3, "Cubic": 3}.get(cls, 99)  # Cubic: since /repo fix 284b91a the library warns too
 
 
 def valid_dims(cls, dims=(1, 2, 3)):
